@@ -47,3 +47,14 @@ Proof.
   exact (encode_decode jparse jprint Hjp H sign verify role_of k issuer now v v' tok Hver).
 Qed.
 Print Assumptions C03_encode_decode.
+
+(* generic claims are outside [C03_encode_decode], and the full statement is FALSE for them (recorded finding K4):
+   a well-typed generic value whose free-form data has a member "tags" that is not a list - Encode writes it, the
+   generic loader would read it back unchanged, but the general decoder's kind/version probe (the identifier read of
+   the same payload) fails, so Decode refuses the token *)
+Theorem C03_k4_refuted : exists (v : val) (j : json),
+  has_type sch_generic v = true /\ enc sch_generic v = Some j /\
+  (exists d, load_v2 KGeneric j = Some d /\ canon d = canon v) /\
+  forall (jparse : string -> option json) (s : string), jparse s = Some j -> p_parse_ident jparse s = None.
+Proof. exact k4_refuted. Qed.
+Print Assumptions C03_k4_refuted.
